@@ -22,6 +22,9 @@
    a, b := f(..) / a, b = f(..)                  call; PUSH n; REVERSEN; stores last target first (a declared
                                                  target takes the next slot at that moment), _ is DROP
    call statement                                call; one DROP per declared result
+   SwitchStmt (default clause last)              tag (or PUSHT); per case: DUP e EQ JMPIF start / JMPIFNOT end, body,
+                                                 JMP switchEnd (deleted for the last clause); switchEnd: DROP;
+                                                 break -> switchEnd; continue / return first drop the tags
    labels + writeJumps                           targets are computed from [size_*] (code size does not
                                                  depend on the targets); absolute instruction indices *)
 From NG Require Import Common.Tactics Lang.MiniGo Lang.Target.
@@ -168,6 +171,9 @@ Fixpoint ndecl (s : stmt) : nat :=
   | SIfElse _ a b => ndecl a + ndecl b
   | SFor i _ po b => ndecl i + ndecl b + ndecl po
   | SBlock a => ndecl a
+  | SSwitch _ cs => ndecl cs
+  | CDefault b => ndecl b
+  | CCase _ _ b rest => ndecl b + ndecl rest
   | _ => 0
   end.
 
@@ -180,30 +186,54 @@ Fixpoint env_after (g : cenv) (next : nat) (s : stmt) : cenv :=
   | _ => g
   end.
 
-Fixpoint size_stmt (s : stmt) : nat :=
+(* case e1, ..., en: DUP e_j EQ JMPIF start for all but the last expression, DUP e_n EQ JMPIFNOT end for the last *)
+Fixpoint size_tests (es : list expr) : nat :=
+  match es with [] => 0 | e :: t => size_expr false e + 3 + size_tests t end.
+
+Definition is_nil (cs : stmt) : bool := match cs with CNil => true | _ => false end.
+
+(* [dc] / [dr]: the number of switch tags on the evaluation stack that continue / return have to drop first
+   (codegen.go: labelList with its stack sizes, dropItems); they decide the size of the code *)
+Fixpoint size_stmt (dc dr : nat) (s : stmt) : nat :=
   match s with
   | SSkip => 0
-  | SSeq a b => size_stmt a + size_stmt b
+  | SSeq a b => size_stmt dc dr a + size_stmt dc dr b
   | SDecl _ e | SAssign _ e => size_expr false e + 1
   | SOpAssign _ _ e => size_expr false e + 3
   | SInc _ | SDec _ => 3
-  | SIf c a => size_expr true c + size_stmt a
-  | SIfElse c a b => size_expr true c + size_stmt a + 1 + size_stmt b
-  | SFor i c po b => size_stmt i + size_expr false c + 1 + size_stmt b + size_stmt po + 1
-  | SBreak | SContinue => 1
-  | SReturn es => size_args (rev es) + 1
-  | SBlock a => size_stmt a
+  | SIf c a => size_expr true c + size_stmt dc dr a
+  | SIfElse c a b => size_expr true c + size_stmt dc dr a + 1 + size_stmt dc dr b
+  | SFor i c po b => size_stmt dc dr i + size_expr false c + 1 + size_stmt 0 dr b + size_stmt 0 dr po + 1
+  | SBreak => 1
+  | SContinue => dc + 1
+  | SReturn es => dr + size_args (rev es) + 1
+  | SBlock a => size_stmt dc dr a
   | SCall f es => size_args es + length (emit_reverse (length es)) + 1 + fr f
   | SCallAssign _ xs f es => size_args es + length (emit_reverse (length es)) + 1 + 2 + length xs
+  | SSwitch tag cs =>
+      (match tag with Some e => size_expr false e | None => 1 end) + size_stmt dc dr cs + 1
+  | CNil => 0
+  | CDefault b => size_stmt (S dc) (S dr) b
+  | CCase _ es b rest =>
+      size_tests es + size_stmt (S dc) (S dr) b + (if is_nil rest then 0 else 1) + size_stmt dc dr rest
   end.
 
-(* [brk] / [cont]: where break / continue of the innermost enclosing loop go *)
-Fixpoint compile_stmt (g : cenv) (next pc brk cont : nat) (s : stmt) {struct s} : code :=
+Fixpoint compile_tests (g : cenv) (pc : nat) (eq : instr) (pstart pend : nat) (es : list expr) : code :=
+  match es with
+  | [] => []
+  | [e] => IDup :: compile_expr g (pc + 1) e MVal ++ [eq; IJmpIfNot pend]
+  | e :: t =>
+      IDup :: compile_expr g (pc + 1) e MVal ++ [eq; IJmpIf pstart]
+      ++ compile_tests g (pc + size_expr false e + 3) eq pstart pend t
+  end.
+
+(* [brk] / [cont]: where break / continue of the innermost enclosing loop or switch go *)
+Fixpoint compile_stmt (g : cenv) (next pc brk cont dc dr : nat) (s : stmt) {struct s} : code :=
   match s with
   | SSkip => []
   | SSeq a b =>
-      compile_stmt g next pc brk cont a
-      ++ compile_stmt (env_after g next a) (next + ndecl a) (pc + size_stmt a) brk cont b
+      compile_stmt g next pc brk cont dc dr a
+      ++ compile_stmt (env_after g next a) (next + ndecl a) (pc + size_stmt dc dr a) brk cont dc dr b
   | SDecl x e => compile_expr g pc e MVal ++ [IStLoc next]
   | SAssign x e => compile_expr g pc e MVal ++ [store (slot_of g x)]
   | SOpAssign x op e =>
@@ -212,32 +242,47 @@ Fixpoint compile_stmt (g : cenv) (next pc brk cont : nat) (s : stmt) {struct s} 
   | SDec x => [load (slot_of g x); IDec; store (slot_of g x)]
   | SIf c a =>
       let pa := pc + size_expr true c in
-      compile_expr g pc c (MJmp false (pa + size_stmt a)) ++ compile_stmt g next pa brk cont a
+      compile_expr g pc c (MJmp false (pa + size_stmt dc dr a)) ++ compile_stmt g next pa brk cont dc dr a
   | SIfElse c a b =>
       let pa := pc + size_expr true c in
-      let pb := pa + size_stmt a + 1 in
-      compile_expr g pc c (MJmp false pb) ++ compile_stmt g next pa brk cont a
-      ++ IJmp (pb + size_stmt b) :: compile_stmt g (next + ndecl a) pb brk cont b
+      let pb := pa + size_stmt dc dr a + 1 in
+      compile_expr g pc c (MJmp false pb) ++ compile_stmt g next pa brk cont dc dr a
+      ++ IJmp (pb + size_stmt dc dr b) :: compile_stmt g (next + ndecl a) pb brk cont dc dr b
   | SFor i c po b =>
       let g1 := env_after g next i in
       let n1 := next + ndecl i in
-      let start := pc + size_stmt i in
+      let start := pc + size_stmt dc dr i in
       let pbody := start + size_expr false c + 1 in
-      let ppost := pbody + size_stmt b in
-      let endl := ppost + size_stmt po + 1 in
-      compile_stmt g next pc brk cont i
+      let ppost := pbody + size_stmt 0 dr b in
+      let endl := ppost + size_stmt 0 dr po + 1 in
+      compile_stmt g next pc brk cont dc dr i
       ++ compile_expr g1 start c MVal ++ IJmpIfNot endl
-         :: compile_stmt g1 n1 pbody endl ppost b
-      ++ compile_stmt g1 (n1 + ndecl b) ppost endl ppost po ++ [IJmp start]
+         :: compile_stmt g1 n1 pbody endl ppost 0 dr b
+      ++ compile_stmt g1 (n1 + ndecl b) ppost endl ppost 0 dr po ++ [IJmp start]
   | SBreak => [IJmp brk]
-  | SContinue => [IJmp cont]
-  | SReturn es => compile_args g pc (rev es) ++ [IRet]
-  | SBlock a => compile_stmt g next pc brk cont a
+  | SContinue => repeat IDrop dc ++ [IJmp cont]
+  | SReturn es => repeat IDrop dr ++ compile_args g (pc + dr) (rev es) ++ [IRet]
+  | SBlock a => compile_stmt g next pc brk cont dc dr a
   | SCall f es =>
       compile_args g pc es ++ emit_reverse (length es) ++ ICall (fe f) :: repeat IDrop (fr f)
   | SCallAssign decl xs f es =>
       compile_args g pc es ++ emit_reverse (length es) ++ ICall (fe f)
       :: IPush (Z.of_nat (length xs)) :: IReverseN :: store_code decl g next (rev xs)
+  | SSwitch tag cs =>
+      let ct := match tag with Some e => compile_expr g pc e MVal | None => [IPushB true] end in
+      let pcs := pc + length ct in
+      let swend := pcs + size_stmt dc dr cs in
+      ct ++ compile_stmt g next pcs swend cont dc dr cs ++ [IDrop]
+  (* the clauses of a switch; [brk] is the end of the switch (its DROP) *)
+  | CNil => []
+  | CDefault b => compile_stmt g next pc brk cont (S dc) (S dr) b
+  | CCase num es b rest =>
+      let pstart := pc + size_tests es in
+      let pend := pstart + size_stmt (S dc) (S dr) b + (if is_nil rest then 0 else 1) in
+      compile_tests g pc (if num then ICmp CEq else IEqual) pstart pend es
+      ++ compile_stmt g next pstart brk cont (S dc) (S dr) b
+      ++ (if is_nil rest then [] else [IJmp brk])     (* writeJumps deletes the jump to the next instruction *)
+      ++ compile_stmt g (next + ndecl b) pend brk cont dc dr rest
   end.
 
 (* ---------- functions and programs ---------- *)
@@ -264,11 +309,11 @@ Definition prologue (f : func) : code :=
 Definition epilogue (f : func) : code := if last_is_return (f_body f) then [] else [IRet].
 
 Definition size_func (f : func) : nat :=
-  length (prologue f) + size_stmt (f_body f) + length (epilogue f).
+  length (prologue f) + size_stmt 0 0 (f_body f) + length (epilogue f).
 
 Definition compile_func (base : nat) (f : func) : code :=
   prologue f
-  ++ compile_stmt (params_env 0 (f_params f)) 0 (base + length (prologue f)) 0 0 (f_body f)
+  ++ compile_stmt (params_env 0 (f_params f)) 0 (base + length (prologue f)) 0 0 0 0 (f_body f)
   ++ epilogue f.
 
 Fixpoint compile_funcs (base : nat) (p : list func) : code :=
